@@ -37,7 +37,7 @@ EXPECT_PROBES = ["too_old_rejected", "jump_beyond_capacity", "out_of_order_in_wi
                  "half_period_jitter", "unaligned_datetime_query", "query_closer_than_one_period", "dump_load_roundtrip",
                  "wrapped_window", "moving_window_variant", "gap_split", "query_with_hole_inside",
                  "valid_slot_overwritten_by_missing", "missing_bridges_two_gaps", "dump_load_of_empty_buffer",
-                 "align_to_in_dst_zone"]
+                 "align_to_in_dst_zone", "window_straddles_clock_change"]
 
 MISSING = None
 
@@ -312,7 +312,16 @@ def scenario_buffer(sim: Sim) -> None:
     align = datetime(2024, 1, 1, tzinfo=sim.epoch.tzinfo) + timedelta(microseconds=ch.choice(
         "align_off", [0, 0, 250_000, 333_333, 999_999, 1]) % period_us)
     dst_far = False
-    if ch.chance("align_in_dst_zone", 0.12):
+    straddle = False
+    if ch.chance("window_straddles_clock_change", 0.1):
+        # the data crosses the end of daylight saving time (2023-10-29 01:00 UTC in Europe/Berlin) while the
+        # window covers it, and the samples are stamped in that zone (same instants as their UTC twins)
+        from zoneinfo import ZoneInfo
+
+        straddle = True
+        align = datetime(2023, 10, 29, 0, 0, tzinfo=sim.epoch.tzinfo)
+        sim.probe("window_straddles_clock_change")
+    elif ch.chance("align_in_dst_zone", 0.12):
         # the same kind of alignment point, given in a zone that observes daylight saving and lies on the other
         # side of a clock change than the data (one fixed instant; the slot grid is align_to + k * period)
         from zoneinfo import ZoneInfo
@@ -327,6 +336,8 @@ def scenario_buffer(sim: Sim) -> None:
     m = Model(cap, period_us, align)
     if dst_far:
         m.slot_base = (244 * 86400 * 1_000_000) // period_us    # ~8 months later: the other side of the clock change
+    if straddle:
+        m.slot_base = (3600 * 1_000_000) // period_us - 25      # the clock change happens ~25 slots into the history
     sig = {"container": "numpy" if container == 0 else "list"}
     sim.config.update(cap=cap, period_us=period_us, container=sig["container"], align_off=str(align))
     sim.note(f"buffer cap={cap} period={period_us}us container={sig['container']} align={align}")
@@ -348,6 +359,10 @@ def scenario_buffer(sim: Sim) -> None:
         before = m.newest
         in_window_before = before is not None and m.lo() <= s <= before
         had = m.get(s) if in_window_before else None
+        if straddle:
+            from zoneinfo import ZoneInfo
+
+            ts = ts.astimezone(ZoneInfo("Europe/Berlin"))
         sample = Sample(ts, None if v is None else Quantity(v))
         vv = None if (v is None or math.isnan(v)) else v
         accepted = m.update(ts, vv)
